@@ -127,7 +127,8 @@ struct CaseRun {
       Inspector::Snap a = Inspector::inspect(*x.docs[d]);
       if (!a.ok) return;  // reported by check_all
       c.count("slot_reuse_checks");
-      if (!doc_level && !x.docs[d]->overflowed()) {
+      // (a text that repeats a key releases the earlier value after the call has already allocated: the order of the two is not visible from here)
+      if (!doc_level && !x.docs[d]->overflowed() && !o.text_dup_keys) {
         // every pool but the last is full, and a pool was added only once the free list was exhausted
         if (a.pools > before[d].pools && a.free_slots != 0)
           viol("pool-requested-while-free-slots", "doc" + std::to_string(d) + ": pools " + std::to_string(before[d].pools) + " -> " + std::to_string(a.pools) + " although " + std::to_string(before[d].free_slots) + " released slots were available (free list still has " + std::to_string(a.free_slots) + ")");
